@@ -157,6 +157,16 @@ def _make_values(case):
                                      open_dims, rng, nprng, small_int=exact)
     ttno, _ = gen.random_ttno_like(rng, nprng, par, {i: open_dims[i][0] for i in range(n)},
                                    bonds=(1, 2, 3) if n <= 5 else (1, 2, 2), small_int=exact)
+    mag = case.get("mag", 0)
+    if mag and not exact:
+        # very large / very small unnormalised states: absolute tolerances inside the library are failing inputs.
+        # phi is never canonical; psi is rescaled only when no centre is recorded (replace_tensor keeps the gauge
+        # bookkeeping of the library out of the picture).
+        targets = [phi] + ([psi] if psi.orthogonality_center_id is None else [])
+        for st in targets:
+            f = 10.0 ** (mag / len(st.nodes))
+            for nid in list(st.nodes):
+                st.replace_tensor(nid, np.asarray(st.tensors[nid]) * f)
     return rng, nprng, psi, phi, ttno, names
 
 
@@ -203,6 +213,7 @@ def _case_values(ctx, case):
     tag = f"{'exact' if exact else 'float'}/{case['gauge']}"
     ctx.tally("nodes", n)
     ctx.tally("regime_gauge", tag)
+    ctx.tally("magnitude_exponent", case.get("mag", 0))
     ctx.tally("child_orders_ket_vs_bra_differ", _child_orders_differ(psi, phi))
     ctx.tally("child_orders_ket_vs_op_differ", _child_orders_differ(psi, ttno))
     ctx.sample(case, 3)
@@ -1025,7 +1036,8 @@ def gen_cases(ctx):
         else:
             gauge = rng.choice(["none", "none", "REDUCED", "FULL", "KEEP", "exactiso"])
         cases.append({"kind": "values", "par": gen.random_parent_array(rng, n, kind),
-                      "seed": rng.randrange(10 ** 9), "exact": exact, "gauge": gauge, "moves": rng.randint(0, 3)})
+                      "seed": rng.randrange(10 ** 9), "exact": exact, "gauge": gauge, "moves": rng.randint(0, 3),
+                      "mag": 0 if exact else rng.choice([0, 0, 0, 0, 6, 8, -6])})
     return cases
 
 
